@@ -61,6 +61,11 @@ def run(prog, R):
                     if which and v and not (which == "NumGateParamsError" and side(b) == "params" and "len" not in show(b) and show(b) != "0"):
                         want.append(which)
                 want = sorted(set(want))
+                # "iff" needs the decision to be made: a gate-typed path that never compares the definition's
+                # arities with the call's cannot report a mismatch
+                fields = {t[2][2] for t, v in nes if isinstance(t[2], tuple) and t[2][0] == "field"}
+                if not {0, 1} <= fields:
+                    bad.append(("gate-typed path does not compare " + "/".join(n_ for i_, n_ in ((0, "parameter count"), (1, "qubit count")) if i_ not in fields) + " with the definition", [show(t)[-50:] + str(c) for t, c in conds_of(p)][-3:]))
             else:
                 ok_cond = find_cond(p, lambda t: is_call(t, "::is_ok"))
                 if ok_cond and ok_cond[0]:
@@ -124,12 +129,17 @@ def run(prog, R):
             arm = arm_of(prog, p, EXPR_ENUM, "expr") or next((n for n, d in prog.enum_variants(EXPR_ENUM) for t, c in conds_of(p) if show(t).startswith("discr(") and "Try" in show(t) and False), None)
             errs = errors_on(p)
             q = find_cond(p, lambda t: is_call(t, "Type::is_quantum"))
+            built_bin = any(c[0].endswith("BinaryExpr::new_texpr_with_cast") or c[0].endswith("BinaryExpr::new") for c in p.calls)
+            if arm == "BinExpr" and built_bin and len(q) != 2:
+                bad_b.append(("binary expression built without testing is_quantum() of both operand types", len(q)))
             if len(q) == 2:
                 nb += 1
                 want = ["IncompatibleTypesError"] * sum(1 for x in q if x)
                 if errs != want:
                     bad_b.append((q, errs))
             gs = [(t, c) for t, c in conds_of(p) if isinstance(t, tuple) and t[0] in ("pure", "call") and "eq" in t[1] and "current_scope_type" in show(t)]
+            if arm == "ReturnExpr" and not gs:
+                bad_r.append(("return translated without comparing the current scope type with Global", errs))
             if gs:
                 nr += 1
                 is_global = truth(gs[0][1]) if "::eq" in gs[0][0][1] else not truth(gs[0][1])
@@ -173,6 +183,10 @@ def run(prog, R):
             mutating = bool(okc) and okc[0] and bool(cst) and cst[0]
             if ("MutateConstError" in errs) != mutating:
                 bad.append((okc, cst, errs))
+            elif okc and okc[0] and not cst:
+                # the target resolved but this path never branches on its const-ness: the diagnostic cannot be
+                # "iff const" on it (const targets take this path silently)
+                bad.append(("path does not test is_const()", [show(t)[-40:] + str(c) for t, c in conds_of(p)][-3:], errs))
         R.ob("C13-mutate-const", "MutateConstError iff target resolved and const", not bad and n >= 6, asg.at, f"{n} identifier-assignment paths; {bad[:2]}")
     # ---- statement arms: NotInGlobalScopeError, delay
     st = R.anchor(prog, S2S + "stmt_to_asg_stmt")
